@@ -461,9 +461,9 @@ func guardedOps(fn *ssa.Function, opaque func(*ssa.Function) bool) map[string]bo
 				if (r.Kind == "param" || r.Kind == "free") && r.Val != nil && isPtrLikeType(r.Val.Type()) {
 					visible = true
 				}
-				if _, isMake := r.Val.(*ssa.MakeSlice); isMake {
-					visible = true
-				}
+				// (stores into slices made by the function itself were tried and dropped: every local
+				// table of the same element type shares one name, and a restructuring that adds an
+				// unguarded store to one of them looked like a lost guard on another)
 				if visible && r.Path != "" {
 					root := "made"
 					if r.Kind == "param" {
